@@ -13,6 +13,7 @@ type propFn func(*Check)
 
 var propTable = map[string]propFn{
 	"C03": checkC03,
+	"C04": checkC04,
 	"C05": checkC05,
 	"C10": checkC10,
 	"C14": checkC14,
